@@ -6,98 +6,206 @@ import (
 	"fmt"
 	"os"
 	"path/filepath"
+	"strconv"
+	"strings"
+	"sync"
 	"sync/atomic"
 	"time"
 )
 
 // Batch protocol: the parent writes the cases of a batch as JSON lines to
-// <dir>/in.jsonl and starts `vcheck child <mode> <dir> [args]`. The child logs
-// the index of each case to <dir>/progress (one line, written before the case
-// is applied) and appends one JSON line per finished case to <dir>/out.jsonl.
-// A process-fatal panic in any goroutine of the worker therefore still leaves
-// the culprit identifiable: the last index in progress without a result.
+// <dir>/in.jsonl and starts `vcheck child <mode> <dir> [args]`. The child
+// appends "<index>\n" to <dir>/progress *before* a case is applied and one
+// JSON line per finished case to <dir>/out.jsonl. A process-fatal panic in any
+// goroutine of the worker (which recover() can never see) therefore still
+// leaves the culprit identifiable: an index in progress without a result. If
+// several cases were in flight, each suspect is re-run alone.
 
-// BatchCrash describes a worker which died.
+// BatchCrash describes a worker which died on a case.
 type BatchCrash struct {
-	Index  int // index (within the whole case list) of the case being applied
+	Index  int // index (within the whole case list) of the culprit case
 	Result *Result
 }
 
 var batchSeq int64
 
-// RunBatches splits cases into batches of size n and runs them on `workers`
-// child processes in parallel. results[i] is nil if case i produced no result.
+// BatchOpts tunes RunBatches.
+type BatchOpts struct {
+	Size     int // cases per child
+	Workers  int // children in parallel
+	Args     []string
+	Env      []string
+	Bin      string // default vcheck
+	Watchdog time.Duration
+}
+
+// RunBatches runs the cases on child processes. results[i] is nil if case i
+// produced no result (its worker died on it: see crashes).
 func (r *Run) RunBatches(mode string, cases []interface{}, n, workers int, extraArgs []string, env []string) ([]json.RawMessage, []BatchCrash) {
+	return r.RunBatchesOpts(mode, cases, BatchOpts{Size: n, Workers: workers, Args: extraArgs, Env: env})
+}
+
+// RunBatchesOpts is RunBatches with all options.
+func (r *Run) RunBatchesOpts(mode string, cases []interface{}, o BatchOpts) ([]json.RawMessage, []BatchCrash) {
 	results := make([]json.RawMessage, len(cases))
 	var crashes []BatchCrash
-	type job struct{ lo, hi int }
-	var jobs []job
-	for lo := 0; lo < len(cases); lo += n {
-		hi := lo + n
+	var cmu sync.Mutex
+	if o.Size < 1 {
+		o.Size = 1
+	}
+	if o.Bin == "" {
+		o.Bin = r.Bin("vcheck")
+	}
+	if o.Watchdog == 0 {
+		o.Watchdog = 30 * time.Minute
+	}
+
+	type job struct{ idx []int }
+	var queue []job
+	for lo := 0; lo < len(cases); lo += o.Size {
+		hi := lo + o.Size
 		if hi > len(cases) {
 			hi = len(cases)
 		}
-		jobs = append(jobs, job{lo, hi})
-	}
-	crashCh := make(chan BatchCrash, len(jobs)+len(cases))
-	Parallel(len(jobs), workers, func(j int) {
-		lo, hi := jobs[j].lo, jobs[j].hi
-		for lo < hi {
-			dir := r.Dir(fmt.Sprintf("batch-%s-%d", mode, atomic.AddInt64(&batchSeq, 1)))
-			fd, _ := os.Create(filepath.Join(dir, "in.jsonl"))
-			w := bufio.NewWriter(fd)
-			for i := lo; i < hi; i++ {
-				b, _ := json.Marshal(cases[i])
-				w.Write(b)
-				w.WriteByte('\n')
-			}
-			w.Flush()
-			fd.Close()
-			res := RunCmd(Cmd{
-				Path:     r.Bin("vcheck"),
-				Args:     append([]string{"child", mode, dir}, extraArgs...),
-				Env:      env,
-				Dir:      dir,
-				Watchdog: 20 * time.Minute,
-			})
-			// collect results
-			done := 0
-			if out, err := os.Open(filepath.Join(dir, "out.jsonl")); err == nil {
-				sc := bufio.NewScanner(out)
-				sc.Buffer(make([]byte, 1<<20), 1<<28)
-				for sc.Scan() {
-					var rec struct {
-						I int             `json:"i"`
-						R json.RawMessage `json:"r"`
-					}
-					if json.Unmarshal(sc.Bytes(), &rec) == nil && lo+rec.I < hi {
-						results[lo+rec.I] = append(json.RawMessage(nil), rec.R...)
-						if rec.I+1 > done {
-							done = rec.I + 1
-						}
-					}
-				}
-				out.Close()
-			}
-			if res.Exit == 0 && done == hi-lo {
-				os.RemoveAll(dir)
-				break
-			}
-			// worker died or stopped early: culprit is case lo+done
-			crashCh <- BatchCrash{Index: lo + done, Result: res}
-			os.RemoveAll(dir)
-			lo = lo + done + 1 // continue after the culprit
+		var idx []int
+		for i := lo; i < hi; i++ {
+			idx = append(idx, i)
 		}
-	})
-	close(crashCh)
-	for c := range crashCh {
-		crashes = append(crashes, c)
+		queue = append(queue, job{idx})
 	}
+	var qmu sync.Mutex
+	pending := len(queue)
+	cond := sync.NewCond(&qmu)
+
+	runJob := func(j job) {
+		dir := r.Dir(fmt.Sprintf("batch-%s-%d", mode, atomic.AddInt64(&batchSeq, 1)))
+		defer os.RemoveAll(dir)
+		fd, _ := os.Create(filepath.Join(dir, "in.jsonl"))
+		w := bufio.NewWriter(fd)
+		for _, i := range j.idx {
+			b, _ := json.Marshal(cases[i])
+			w.Write(b)
+			w.WriteByte('\n')
+		}
+		w.Flush()
+		fd.Close()
+		res := RunCmd(Cmd{
+			Path:     o.Bin,
+			Args:     append([]string{"child", mode, dir}, o.Args...),
+			Env:      o.Env,
+			Dir:      dir,
+			Watchdog: o.Watchdog,
+		})
+		finished := map[int]bool{}
+		if out, err := os.Open(filepath.Join(dir, "out.jsonl")); err == nil {
+			sc := bufio.NewScanner(out)
+			sc.Buffer(make([]byte, 1<<20), 1<<28)
+			for sc.Scan() {
+				var rec struct {
+					I int             `json:"i"`
+					R json.RawMessage `json:"r"`
+				}
+				if json.Unmarshal(sc.Bytes(), &rec) == nil && rec.I >= 0 && rec.I < len(j.idx) {
+					results[j.idx[rec.I]] = append(json.RawMessage(nil), rec.R...)
+					finished[rec.I] = true
+				}
+			}
+			out.Close()
+		}
+		if len(finished) == len(j.idx) {
+			return
+		}
+		started := map[int]bool{}
+		if pb, err := os.ReadFile(filepath.Join(dir, "progress")); err == nil {
+			for _, l := range strings.Split(string(pb), "\n") {
+				if v, err := strconv.Atoi(strings.TrimSpace(l)); err == nil {
+					started[v] = true
+				}
+			}
+		}
+		var suspects, untouched []int
+		for k := range j.idx {
+			if finished[k] {
+				continue
+			}
+			if started[k] {
+				suspects = append(suspects, j.idx[k])
+			} else {
+				untouched = append(untouched, j.idx[k])
+			}
+		}
+		var more []job
+		switch {
+		case len(j.idx) == 1:
+			cmu.Lock()
+			crashes = append(crashes, BatchCrash{Index: j.idx[0], Result: res})
+			cmu.Unlock()
+		case len(suspects) == 1:
+			cmu.Lock()
+			crashes = append(crashes, BatchCrash{Index: suspects[0], Result: res})
+			cmu.Unlock()
+		case len(suspects) == 0 && len(untouched) > 0:
+			// died before starting any case (or progress lost): rerun one by one
+			for _, i := range untouched {
+				more = append(more, job{[]int{i}})
+			}
+			untouched = nil
+		default:
+			for _, i := range suspects {
+				more = append(more, job{[]int{i}})
+			}
+		}
+		if len(untouched) > 0 {
+			more = append(more, job{untouched})
+		}
+		if len(more) > 0 {
+			qmu.Lock()
+			queue = append(queue, more...)
+			pending += len(more)
+			cond.Broadcast()
+			qmu.Unlock()
+		}
+	}
+
+	var wg sync.WaitGroup
+	for w := 0; w < o.Workers; w++ {
+		wg.Add(1)
+		go func() {
+			defer wg.Done()
+			for {
+				qmu.Lock()
+				for len(queue) == 0 && pending > 0 {
+					cond.Wait()
+				}
+				if pending == 0 {
+					qmu.Unlock()
+					return
+				}
+				j := queue[0]
+				queue = queue[1:]
+				qmu.Unlock()
+				runJob(j)
+				qmu.Lock()
+				pending--
+				if pending == 0 {
+					cond.Broadcast()
+				}
+				qmu.Unlock()
+			}
+		}()
+	}
+	wg.Wait()
 	return results, crashes
 }
 
-// BatchMain is the child side: it reads the cases, and calls fn for each.
+// BatchMain is the child side: it reads the cases and calls fn for each,
+// `par` at a time.
 func BatchMain(dir string, fn func(i int, raw json.RawMessage) interface{}) int {
+	return BatchMainPar(dir, 1, fn)
+}
+
+// BatchMainPar runs up to par cases concurrently.
+func BatchMainPar(dir string, par int, fn func(i int, raw json.RawMessage) interface{}) int {
 	in, err := os.Open(filepath.Join(dir, "in.jsonl"))
 	if err != nil {
 		fmt.Fprintln(os.Stderr, err)
@@ -112,19 +220,25 @@ func BatchMain(dir string, fn func(i int, raw json.RawMessage) interface{}) int 
 	defer out.Close()
 	prog, _ := os.Create(filepath.Join(dir, "progress"))
 	defer prog.Close()
+	var raws []json.RawMessage
 	sc := bufio.NewScanner(in)
 	sc.Buffer(make([]byte, 1<<20), 1<<28)
-	i := 0
 	for sc.Scan() {
-		raw := append(json.RawMessage(nil), sc.Bytes()...)
+		raws = append(raws, append(json.RawMessage(nil), sc.Bytes()...))
+	}
+	var mu sync.Mutex
+	Parallel(len(raws), par, func(i int) {
+		mu.Lock()
 		fmt.Fprintf(prog, "%d\n", i)
-		res := fn(i, raw)
+		mu.Unlock()
+		res := fn(i, raws[i])
 		b, err := json.Marshal(map[string]interface{}{"i": i, "r": res})
 		if err != nil {
 			b, _ = json.Marshal(map[string]interface{}{"i": i, "r": map[string]string{"marshal_error": err.Error()}})
 		}
+		mu.Lock()
 		out.Write(append(b, '\n'))
-		i++
-	}
+		mu.Unlock()
+	})
 	return 0
 }
